@@ -12,6 +12,7 @@ Hypothesis HNil : P Nil.
 Hypothesis HConst : forall s, P (Const s).
 Hypothesis HPtr : forall i, P (Ptr i).
 Hypothesis HTyped : forall t i, P (Typed t i).
+Hypothesis HTypedU : forall t i, P (TypedU t i).
 Hypothesis HWrap : forall g e, P e -> P (Wrap1 g e).
 Hypothesis HMulti : forall g es, Forall P es -> P (Multi g es).
 Hypothesis HStk : forall g n es, Forall P es -> P (Stk g n es).
@@ -22,6 +23,7 @@ Fixpoint err_ind' (e : err) : P e :=
   | Const s => HConst s
   | Ptr i => HPtr i
   | Typed t i => HTyped t i
+  | TypedU t i => HTypedU t i
   | Wrap1 g x => HWrap g x (err_ind' x)
   | Multi g es => HMulti g es ((fix go (l : list err) : Forall P l :=
                                   match l with [] => Forall_nil P | x :: r => Forall_cons x (err_ind' x) (go r) end) es)
@@ -51,6 +53,9 @@ Hypothesis H15 : forall g i, P (XPanicOther g i).
 Hypothesis H16 : forall g x, P x -> P (XUnwrap g x).
 Hypothesis H17 : forall g xs, Forall P xs -> P (XJoinRemoveOk g xs).
 Hypothesis H18 : forall g xs, Forall P xs -> P (XJoinAppend g xs).
+Hypothesis H19 : forall t i, P (XTypedU t i).
+Hypothesis H20 : forall ex x, Forall P ex -> P x -> P (XFilterExclude ex x).
+Hypothesis H21 : forall g c adds pre items kinds, Forall P adds -> Forall P pre -> Forall P items -> P (XConsume g c adds pre items kinds).
 
 Fixpoint expr_ind' (x : expr) : P x :=
   let go := fix go (l : list expr) : Forall P l :=
@@ -75,6 +80,9 @@ Fixpoint expr_ind' (x : expr) : P x :=
   | XUnwrap g y => H16 g y (expr_ind' y)
   | XJoinRemoveOk g xs => H17 g xs (go xs)
   | XJoinAppend g xs => H18 g xs (go xs)
+  | XTypedU t i => H19 t i
+  | XFilterExclude ex y => H20 ex y (go ex) (expr_ind' y)
+  | XConsume g c adds pre items kinds => H21 g c adds pre items kinds (go adds) (go pre) (go items)
   end.
 End ExprInd.
 
@@ -321,6 +329,121 @@ Proof.
   simpl constituents. apply (flat_map_plain (y :: r) Hp).
 Qed.
 
+(* ------------------------------------------------------------------ erc.Consume *)
+
+(* what the scripted source hands over: the items delivered to the collector, the error the source failed with,
+   and whether the loop ended because the context was cancelled *)
+Fixpoint observe_spec (steps : list (Z * err)) (cancelled : bool) : list err * list err * bool :=
+  if cancelled then ([], [], true)
+  else match steps with
+       | [] => ([], [], false)
+       | (k, e) :: r =>
+           if k =? 1 then ([], [e], false)
+           else match observe_spec r (k =? 2) with (d, f, cn) => (e :: d, f, cn) end
+       end.
+
+Lemma observe_loop_spec steps : forall cancelled c ist,
+  observe_loop steps cancelled c ist =
+  match observe_spec steps cancelled with
+  | (d, f, cn) => (coll_adds c d, stack_add ist f, if cn then ctx_canceled else Nil)
+  end.
+Proof.
+  induction steps as [|[k e] r IH]; intros cancelled c ist; destruct cancelled; try reflexivity.
+  simpl. destruct (k =? 1); [reflexivity|]. rewrite IH. destruct (observe_spec r (k =? 2)) as [[d f] cn]. reflexivity.
+Qed.
+
+Lemma observe_spec_incl steps : forall cancelled d f cn,
+  observe_spec steps cancelled = (d, f, cn) -> forall x, In x d \/ In x f -> In x (map snd steps).
+Proof.
+  induction steps as [|[k e] r IH]; intros cancelled d f cn H x Hx; destruct cancelled; simpl in H.
+  - inv H. destruct Hx as [[]|[]].
+  - inv H. destruct Hx as [[]|[]].
+  - inv H. destruct Hx as [[]|[]].
+  - destruct (k =? 1).
+    + inv H. destruct Hx as [[]|[Hx|[]]]. left. assumption.
+    + destruct (observe_spec r (k =? 2)) as [[d' f'] cn'] eqn:E. inv H. simpl.
+      destruct Hx as [[Hx|Hx]|Hx]; auto; right; eapply IH; eauto.
+Qed.
+
+Lemma constituents_join tag es : constituents (join tag es) = rev (supplied es).
+Proof.
+  rewrite join_spec. pose proof (supplied_plain es) as Hp. destruct (supplied es) as [|c [|d cs]].
+  - reflexivity.
+  - inv Hp. simpl. apply plain_constituents. assumption.
+  - simpl constituents. apply flat_map_plain, Forall_rev'. assumption.
+Qed.
+
+Lemma constituents_resolve tag st cs :
+  st = mkStack (Z.of_nat (length cs)) (rev cs) -> Forall (fun c => plain c = true) cs ->
+  constituents (stack_resolve tag st) = rev cs.
+Proof.
+  intros -> Hp. unfold stack_resolve. simpl s_count. simpl s_chain. destruct cs as [|c [|d cs]].
+  - reflexivity.
+  - inv Hp. simpl. apply plain_constituents. assumption.
+  - change (length (c :: d :: cs)) with (S (S (length cs))).
+    destruct (Z.of_nat (S (S (length cs))) =? 0) eqn:E0; [lia|].
+    destruct (Z.of_nat (S (S (length cs))) =? 1) eqn:E1; [lia|].
+    simpl constituents. apply flat_map_plain, Forall_rev'. assumption.
+Qed.
+
+(* what Consume leaves in the collector: the delivered items, then (deeper than the iterator's own errors, which
+   come out first) the context error if the loop was cancelled, then everything the iterator carried *)
+Definition consumed (pre : list err) (steps : list (Z * err)) (cancelled : bool) : list err :=
+  match observe_spec steps cancelled with
+  | (d, f, cn) => supplied d ++ (if cn then [ctx_canceled] else []) ++ supplied (pre ++ f)
+  end.
+
+Lemma stack_add_app st a b : stack_add (stack_add st a) b = stack_add st (a ++ b).
+Proof. unfold stack_add. symmetry. apply fold_left_app. Qed.
+
+Lemma consume_spec c pre steps cancelled :
+  consume c pre steps cancelled = pushed c (consumed pre steps cancelled).
+Proof.
+  unfold consume, consumed. rewrite observe_loop_spec. destruct (observe_spec steps cancelled) as [[d f] cn].
+  rewrite stack_add_app, stack_add_zero.
+  rewrite coll_add_push, push_spec, coll_adds_spec, pushed_app. f_equal. f_equal.
+  rewrite constituents_join.
+  assert (Hs : forall a b, supplied [a; b; Nil] = constituents a ++ constituents b).
+  { intros. unfold supplied. simpl. rewrite app_nil_r. reflexivity. }
+  rewrite Hs, (constituents_resolve 0 _ (supplied (pre ++ f)) eq_refl (supplied_plain _)).
+  destruct cn; simpl; rewrite ?rev_app_distr, ?rev_involutive, ?app_nil_r; reflexivity.
+Qed.
+
+Lemma wf_consumed pre steps cancelled :
+  Forall (fun e => wf e = true) pre -> Forall (fun e => wf e = true) (map snd steps) ->
+  Forall (fun c => wf c = true) (consumed pre steps cancelled).
+Proof.
+  intros Hp Hs. unfold consumed. destruct (observe_spec steps cancelled) as [[d f] cn] eqn:E.
+  pose proof (observe_spec_incl _ _ _ _ _ E) as Hin. rewrite Forall_forall in Hs.
+  apply Forall_app. split; [|apply Forall_app; split].
+  - apply wf_supplied, Forall_forall. intros x Hx. apply Hs, Hin. auto.
+  - destruct cn; repeat constructor.
+  - apply wf_supplied, Forall_app. split; [assumption|]. apply Forall_forall. intros x Hx. apply Hs, Hin. auto.
+Qed.
+
+Lemma consumed_plain pre steps cancelled : Forall (fun c => plain c = true) (consumed pre steps cancelled).
+Proof.
+  unfold consumed. destruct (observe_spec steps cancelled) as [[d f] cn].
+  apply Forall_app. split; [apply supplied_plain|]. apply Forall_app. split; [|apply supplied_plain].
+  destruct cn; repeat constructor.
+Qed.
+
+Lemma wf_coll_resolve_pushed tag cs ds :
+  Forall (fun c => plain c = true) cs -> Forall (fun c => wf c = true) cs ->
+  Forall (fun c => plain c = true) ds -> Forall (fun c => wf c = true) ds ->
+  wf (coll_resolve tag (pushed (pushed coll_zero cs) ds)) = true.
+Proof.
+  intros. rewrite pushed_app. unfold coll_resolve, stack_len, pushed, coll_zero, stack_zero. simpl s_count. simpl s_chain.
+  simpl. destruct (Z.of_nat (length (cs ++ ds)) =? 0); [reflexivity|]. simpl. rewrite app_nil_r.
+  apply wf_chain; apply Forall_rev', Forall_app; split; assumption.
+Qed.
+
+Lemma combine_snd_incl {A B} (ks : list A) (vs : list B) x : In x (map snd (combine ks vs)) -> In x vs.
+Proof.
+  revert vs. induction ks as [|k ks IH]; intros vs H; [destruct H|]. destruct vs as [|v vs]; [destruct H|].
+  simpl in H. destruct H as [H|H]; [left; assumption|right; apply IH; assumption].
+Qed.
+
 (* every value a program can build is well-formed *)
 Theorem wf_eval x : wf (eval x) = true.
 Proof.
@@ -345,4 +468,10 @@ Proof.
   - apply wf_unwrap1. assumption.
   - apply wf_join, wf_remove_ok, Forall_map_eval. assumption.
   - apply wf_join, wf_remove_ok, Forall_map_eval. assumption.
+  - unfold filter_exclude. destruct (map eval ex); [assumption|].
+    destruct (ok (eval x) || ers_is (eval x) (e :: l)); [reflexivity|assumption].
+  - rewrite consume_spec, coll_adds_spec. apply Forall_map_eval in H, H0, H1.
+    apply wf_coll_resolve_pushed; [apply supplied_plain|apply wf_supplied; assumption|apply consumed_plain|].
+    apply wf_consumed; [assumption|]. apply Forall_forall. intros y Hy. apply combine_snd_incl in Hy.
+    rewrite Forall_forall in H1. auto.
 Qed.
